@@ -169,9 +169,15 @@ Definition nonnegb (o : option Q) : bool := match o with Some q => Qle_bool 0 q 
 (* the record (Z, A) serves: complex b_c consistent with b_c and absorption (C07), absorption >= 0;
    or a non-empty table with positive energies and Im b <= 0; or (natural Lu) the same for Lu-175,
    Lu-176 and non-negative abundances *)
+Definition tot_nonnegb (r : nrec) : bool :=
+  match r_tot r with
+  | Some (NRead q) | Some (NCalc q) => Qle_bool 0 q
+  | Some (NSqrt4pi _) => true
+  | None => false
+  end.
 Definition rec_okb_r (D : ndata) (r : nrec) : bool :=
   match r_tab r with
-  | None => (bcc_ok r && abs_nonnegb r)%bool
+  | None => (bcc_ok r && abs_nonnegb r && tot_nonnegb r)%bool
   | Some (ETab rows) => tab_okb rows
   | Some ELuNat =>
       let r175 := nd_rec D (nd_lu D) 175 in
@@ -396,7 +402,8 @@ Proof.
       with ((Q2R im' * Q2R a175 + interp (wl_R w) (im_nodes_R rows) * Q2R a176) / 100) by field.
     reflexivity.
   - (* tabulated b_c, absorption, total *)
-    cbn [bind] in Es. apply andb_prop in Hok. destruct Hok as [Hbcc Habs].
+    cbn [bind] in Es. apply andb_prop in Hok. destruct Hok as [Hok Htot].
+    apply andb_prop in Hok. destruct Hok as [Hbcc Habs].
     destruct (bcc_ok_parts _ Hbcc) as (ab & re' & im' & H1 & H2 & H3 & H4).
     rewrite H2 in Es. destruct re' as [re'|]; [|discriminate].
     destruct (r_tot (nd_rec D (az a) (aa a))) as [t|]; [|discriminate].
@@ -450,14 +457,27 @@ Qed.
 Lemma nonnegb_ok : forall q, nonnegb (Some q) = true -> 0 <= Q2R q.
 Proof. intros q H. cbn [nonnegb] in H. apply Qle_bool_Rle in H. rewrite RMicromega.Q2R_0 in H. exact H. Qed.
 
-(* count, mass and sign of Im b_c of a documented per-atom record *)
+Lemma sigma_s_of_b_nonneg : forall re im, 0 <= sigma_s_of_b re im.
+Proof.
+  intros re im. unfold sigma_s_of_b, fm2_per_barn. assert (0 < PI) by apply PI_RGT_0.
+  apply Rmult_le_pos; [|lra]. apply Rmult_le_pos; [lra|]. nra.
+Qed.
+Lemma tot_nonnegb_ok : forall r t, tot_nonnegb r = true -> r_tot r = Some t -> 0 <= num_R t.
+Proof.
+  intros r t H E. unfold tot_nonnegb in H. rewrite E in H. destruct t as [q|q|c]; cbn [num_R].
+  - apply Qle_bool_Rle in H. rewrite RMicromega.Q2R_0 in H. exact H.
+  - apply Qle_bool_Rle in H. rewrite RMicromega.Q2R_0 in H. exact H.
+  - apply sqrt_pos.
+Qed.
+
+(* count, mass, sign of Im b_c and of sigma_s of a documented per-atom record *)
 Theorem tab_comp_facts : forall D w p c, rec_okb D (az (fst p)) (aa (fst p)) = true ->
   tab_comp D w p = Some c ->
-  c_n c = Q2R (snd p) /\ c_m c = Q2R (e_mass (nd_env D) (fst p)) /\ c_im c <= 0.
+  c_n c = Q2R (snd p) /\ c_m c = Q2R (e_mass (nd_env D) (fst p)) /\ c_im c <= 0 /\ 0 <= c_ss c.
 Proof.
   intros D w [a n] c Hok H. unfold tab_comp in H. unfold rec_okb, rec_okb_r in Hok. cbn [fst snd] in *.
   destruct (r_tab (nd_rec D (az a) (aa a))) as [[rows|]|].
-  - inversion H; subst c. cbn [c_n c_m c_im]. repeat split.
+  - inversion H; subst c. cbn [c_n c_m c_im c_ss]. repeat split; [|apply sigma_s_of_b_nonneg].
     destruct (tab_okb_ok rows Hok) as (Hne & _ & Him).
     apply interp_le; [destruct rows; [congruence|discriminate]|]. apply im_nodes_nonpos. exact Him.
   - apply andb_prop in Hok. destruct Hok as [Hok Ha176]. apply andb_prop in Hok. destruct Hok as [Hok Ha175].
@@ -467,7 +487,7 @@ Proof.
     destruct (r_tab (nd_rec D (nd_lu D) 176)) as [[rows|]|]; try discriminate.
     destruct (nd_abund D (nd_lu D) 175) as [a175|]; [|discriminate].
     destruct (nd_abund D (nd_lu D) 176) as [a176|]; [|discriminate].
-    inversion H; subst c. cbn [c_n c_m c_im]. repeat split.
+    inversion H; subst c. cbn [c_n c_m c_im c_ss]. repeat split; [|apply sigma_s_of_b_nonneg].
     destruct (tab_okb_ok rows Ht) as (Hne & _ & Him).
     assert (H176 : interp (wl_R w) (im_nodes_R rows) <= 0).
     { apply interp_le; [destruct rows; [congruence|discriminate]|]. apply im_nodes_nonpos. exact Him. }
@@ -475,12 +495,13 @@ Proof.
     { apply im_of_absorption_nonpos. exact (abs_nonnegb_ok _ _ Habs Eab). }
     pose proof (nonnegb_ok _ Ha175). pose proof (nonnegb_ok _ Ha176).
     unfold abundance_mix. nra.
-  - apply andb_prop in Hok. destruct Hok as [Hbcc Habs].
+  - apply andb_prop in Hok. destruct Hok as [Hok Htot]. apply andb_prop in Hok. destruct Hok as [Hbcc Habs].
     destruct (r_bc (nd_rec D (az a) (aa a))) as [b|]; [|discriminate].
     destruct (r_abs (nd_rec D (az a) (aa a))) as [ab|] eqn:Eab; [|discriminate].
-    destruct (r_tot (nd_rec D (az a) (aa a))) as [t|]; [|discriminate].
-    inversion H; subst c. cbn [c_n c_m c_im]. repeat split.
-    apply im_of_absorption_nonpos. exact (abs_nonnegb_ok _ _ Habs Eab).
+    destruct (r_tot (nd_rec D (az a) (aa a))) as [t|] eqn:Et; [|discriminate].
+    inversion H; subst c. cbn [c_n c_m c_im c_ss]. repeat split.
+    + apply im_of_absorption_nonpos. exact (abs_nonnegb_ok _ _ Habs Eab).
+    + exact (tot_nonnegb_ok _ _ Htot Et).
 Qed.
 
 (* ------------------------------------------------------------------ lists of options *)
@@ -554,11 +575,11 @@ Proof.
     unfold l. apply ev_acc_sum. intro c. reflexivity. }
   rewrite HN, (ev_wl_expr w Hw).
   (* facts about the cell *)
-  assert (Hfacts : forall c, In c l -> 0 < c_n c /\ 0 < c_m c /\ c_im c <= 0).
+  assert (Hfacts : forall c, In c l -> 0 < c_n c /\ 0 < c_m c /\ c_im c <= 0 /\ 0 <= c_ss c).
   { intros c Hin. destruct (all_some_in (tab_comp D w) d l Hl c Hin) as (p & Hp & Hc).
     destruct (Hd p Hp) as (Hcnt & Hmass & Hok).
-    destruct (tab_comp_facts D w p c Hok Hc) as (E1 & E2 & E3).
-    rewrite E1, E2. repeat split; [apply Q2R_pos; exact Hcnt|apply Q2R_pos; exact Hmass|exact E3]. }
+    destruct (tab_comp_facts D w p c Hok Hc) as (E1 & E2 & E3 & E4).
+    rewrite E1, E2. repeat split; [apply Q2R_pos; exact Hcnt|apply Q2R_pos; exact Hmass|exact E3|exact E4]. }
   assert (Hlne : l <> []).
   { intro E. apply Hne. pose proof (all_some_length _ _ _ Hl) as Hlen. rewrite E in Hlen.
     destruct d; [reflexivity|discriminate]. }
@@ -569,5 +590,5 @@ Proof.
   - unfold n_total. apply sum_pos; [exact Hlne|]. intros c Hin. exact (proj1 (Hfacts c Hin)).
   - unfold molar_mass. apply sum_pos; [exact Hlne|]. intros c Hin.
     destruct (Hfacts c Hin) as (H1 & H2 & _). apply Rmult_lt_0_compat; assumption.
-  - apply sum_nonpos. intros c Hin. destruct (Hfacts c Hin) as (H1 & _ & H3). nra.
+  - apply sum_nonpos. intros c Hin. destruct (Hfacts c Hin) as (H1 & _ & H3 & _). nra.
 Qed.
